@@ -10,5 +10,7 @@ for p in "$@"; do
   grep '^VIOLATION\|INFRA' /tmp/seedrun_${seed}_$p.txt | cut -c1-220
 done
 git -C /repo checkout -- .
+# the evidence files must describe runs on the unchanged tree: put back what these runs overwrote
+git -C /verif checkout -- evidence 2>/dev/null
 # regenerate the Gen files for the unchanged tree
 /verif/go/bin/extract /repo /verif/lean/Gowarc/Gen >/dev/null
